@@ -30,6 +30,9 @@ type verifServerHooks struct {
 	// read through the transcript (so the client Finished is checked over it) and its raw
 	// bytes are handed to the callback.
 	ClientEncryptedExtensions func(raw []byte)
+	// KyberDraftTLS13 makes a TLS 1.3 server answer the client's X25519Kyber768Draft00 key share
+	// (a group the server does not implement itself) whenever the first ClientHello carries one.
+	KyberDraftTLS13 bool
 }
 
 // VerifServerHooks is the exported name of the hook set.
